@@ -223,20 +223,67 @@ HostParse(ts) ==
                    names |-> All(hp, NameToks), hp |-> hp]
         ELSE bad
 
+(* ---------------------------------------------------------------------------- Accept *)
+(* Accept = #( media-range [ weight ] ) (RFC 9110 12.5.1).  One list element is ONE token; the table gives
+   type, subtype, whether the range carries media-type parameters (quoted ones included) and the weight in
+   thousandths.  The most specific matching range decides.  Whether a range WITH parameters covers a
+   parameterless media type is read both ways (strictly: no; leniently: yes, below the parameterless exact
+   range); a value is only specified where both readings and all ranges of the deciding level agree. *)
+R(t, st, p, q) == [t |-> t, st |-> st, p |-> p, q |-> q]
+AccRange ==
+    ("application/json"                      :> R("application", "json", FALSE, 1000)) @@
+    ("application/json;q=0.5"                :> R("application", "json", FALSE, 500)) @@
+    ("application/xml;q=0"                   :> R("application", "xml", FALSE, 0)) @@
+    ("application/xml;v=\"1\";q=0.9"         :> R("application", "xml", TRUE, 900)) @@
+    ("text/plain;charset=\"utf-8\";q=0"      :> R("text", "plain", TRUE, 0)) @@
+    ("text/plain;charset=\"utf-8\""          :> R("text", "plain", TRUE, 1000)) @@
+    ("text/plain;q=0.7"                      :> R("text", "plain", FALSE, 700)) @@
+    ("text/*;q=0.3"                          :> R("text", "*", FALSE, 300)) @@
+    ("*/*;q=0.1"                             :> R("*", "*", FALSE, 100)) @@
+    ("*/*;q=0"                               :> R("*", "*", FALSE, 0))
+AccRanges    == DOMAIN AccRange
+AcceptTokens == AccRanges \cup {",", SP, "x", ";q=2"}
+AccParse(ts) ==
+    LET parts == Split(ts, ",")
+        es    == [j \in 1..Len(parts) |-> Trim(parts[j])]
+        ok    == NoEdgeSpace(ts) /\ (\A j \in 1..Len(es) : Len(es[j]) = 1 /\ es[j][1] \in AccRanges)
+    IN  [ok |-> ok, rs |-> IF ok THEN [j \in 1..Len(es) |-> AccRange[es[j][1]]] ELSE <<>>]
+(* specificity of range r for the parameterless media type T = <<type, subtype>>; -1: no match *)
+AccLevel(r, T) == IF r.t = T[1] /\ r.st = T[2] THEN (IF r.p THEN 2 ELSE 3)
+                  ELSE IF r.t = T[1] /\ r.st = "*" THEN 1
+                  ELSE IF r.t = "*" /\ r.st = "*" THEN 0 ELSE -1
+(* weight decided by the levels in Lv: the single weight of the highest non-empty level, 0 if none, -1 if ambiguous *)
+AccQ(rs, T, Lv) ==
+    LET At(lv) == {rs[j].q : j \in {k \in 1..Len(rs) : AccLevel(rs[k], T) = lv}}
+        top    == {lv \in Lv : At(lv) # {}}
+    IN  IF top = {} THEN 0
+        ELSE LET m == CHOOSE lv \in top : \A o \in top : o <= lv
+             IN  IF Cardinality(At(m)) = 1 THEN CHOOSE q \in At(m) : TRUE ELSE -1
+Quality(rs, T) == LET strict == AccQ(rs, T, {3, 1, 0})
+                      lenient == AccQ(rs, T, {3, 2, 1, 0})
+                  IN  IF strict = lenient THEN strict ELSE -1
+TJson == <<"application", "json">>
+TXml  == <<"application", "xml">>
+TText == <<"text", "plain">>
+TName(T) == T[1] \o "/" \o T[2]
+PrefersPool == <<TText, TJson, TXml>>          \* the harness asks client_prefers() for these, in this order
+
 (* ---------------------------------------------------------------------- the request *)
 (* req = [scheme, server |-> <<name, port>>, peer, root, path, query,
           h |-> [header name |-> [p |-> present, o |-> opaque, t |-> tokens]]]
    An opaque value (o) is one the harness could not express in tokens: everything derived
    from it is `AnyOut`. *)
 HNames == {"range", "content-length", "if-match", "if-none-match", "forwarded", "x-forwarded-for",
-           "x-real-ip", "x-forwarded-proto", "x-forwarded-host", "host"}
+           "x-real-ip", "x-forwarded-proto", "x-forwarded-host", "host", "accept"}
 Absent == [p |-> FALSE, o |-> FALSE, t |-> <<>>]
 Hdr(ts) == [p |-> TRUE, o |-> FALSE, t |-> ts]
 
 Typed(req, name, F(_)) ==             \* accessor over one header: None when the header is absent
     LET h == req.h[name] IN IF ~h.p THEN None ELSE IF h.o THEN AnyOut ELSE F(h.t)
 
-DefaultPort(req) == IF req.scheme = "https" THEN 443 ELSE 80
+(* http and ws (a WebSocket handshake, ASGI only) default to 80, https and wss to 443 (RFC 9110 4.2, RFC 6455 3) *)
+AllSchemes == {"http", "https", "ws", "wss"}
+DefaultPort(req) == IF req.scheme \in {"https", "wss"} THEN 443 ELSE 80
 Itoa(n) == ToString(n)
 
 HostInfo(req) == HostParse(req.h["host"].t)
@@ -299,7 +346,23 @@ RelativeUri(req) == req.root \o req.path \o (IF req.query = "" THEN "" ELSE "?" 
 Compose(schemeO, hostO, tail) ==
     IF IsVal(schemeO) /\ IsVal(hostO) THEN ValS(schemeO.s \o "://" \o hostO.s \o tail) ELSE AnyOut
 
-Attrs == {"range", "range_unit", "content_length", "if_match", "if_none_match", "forwarded", "access_route",
+AcceptsOutcome(req, T) ==                \* client_accepts(T): a missing Accept header means */*
+    LET h == req.h["accept"] IN
+    IF ~h.p THEN ValS("true")
+    ELSE IF h.o \/ ~AccParse(h.t).ok THEN AnyOut
+    ELSE LET q == Quality(AccParse(h.t).rs, T) IN IF q = -1 THEN AnyOut ELSE ValS(IF q > 0 THEN "true" ELSE "false")
+PrefersOutcome(req) ==                   \* client_prefers(PrefersPool): the unique type of highest weight, None if all 0
+    LET h == req.h["accept"] IN
+    IF ~h.p \/ h.o \/ ~AccParse(h.t).ok THEN AnyOut
+    ELSE LET rs == AccParse(h.t).rs
+             qs == [j \in 1..Len(PrefersPool) |-> Quality(rs, PrefersPool[j])]
+             mx == CHOOSE q \in {qs[j] : j \in 1..Len(qs)} : \A j \in 1..Len(qs) : qs[j] <= q
+             best == {j \in 1..Len(qs) : qs[j] = mx}
+         IN  IF \E j \in 1..Len(qs) : qs[j] = -1 THEN AnyOut
+             ELSE IF mx = 0 THEN None
+             ELSE IF Cardinality(best) = 1 THEN ValS(TName(PrefersPool[CHOOSE j \in best : TRUE])) ELSE AnyOut
+
+Attrs == {"client_accepts_json", "client_accepts_xml", "accepts_text_plain", "prefers", "range", "range_unit", "content_length", "if_match", "if_none_match", "forwarded", "access_route",
           "remote_addr", "host", "port", "netloc", "subdomain", "scheme", "forwarded_scheme", "forwarded_host",
           "relative_uri", "prefix", "uri", "forwarded_prefix", "forwarded_uri"}
 
@@ -325,6 +388,10 @@ Fresh(req, a) ==
       [] a = "uri"              -> Compose(ValS(req.scheme), NetlocOutcome(req), RelativeUri(req))
       [] a = "forwarded_prefix" -> Compose(ForwardedSchemeOutcome(req), ForwardedHostOutcome(req), req.root)
       [] a = "forwarded_uri"    -> Compose(ForwardedSchemeOutcome(req), ForwardedHostOutcome(req), RelativeUri(req))
+      [] a = "client_accepts_json" -> AcceptsOutcome(req, TJson)
+      [] a = "client_accepts_xml"  -> AcceptsOutcome(req, TXml)
+      [] a = "accepts_text_plain"  -> AcceptsOutcome(req, TText)
+      [] a = "prefers"          -> PrefersOutcome(req)
       [] OTHER                  -> AnyOut
 
 (* raw lookup, any casing of the name: the wire text, None if absent (opaque: not decided here) *)
